@@ -30,7 +30,7 @@ def gen(r, i):
             p = r.choice(["g%d/m%d.dat" % (g, j), "other/l%d_%d" % (g, j), "l%d_%d.lnk" % (g, j)])
             spec.append({"p": p, "k": "h", "to": first})
     for j in range(r.randrange(0, 3)):
-        spec.append({"p": "plain%d.txt" % j, "k": "f", "data": ("rand", 7000 + j, 50), "mt": 50})
+        spec.append({"p": "plain%d.txt" % j, "k": "f", "data": ("rand", 7000, 50), "mt": 50})      # equal bytes: they may become links of each other later
     return spec
 
 
@@ -69,7 +69,26 @@ def run(tier, seed):
             j = r.choice([1, 2, 4, 8, 16])
             sc.env["SY_VERIF_DELTA_THRESHOLD"] = str(ew.BIG)
             want = inode_classes(world.snapshot(src))
-            for phase in ("create", "rerun", "update", "unlink"):
+            if i % 3 == 1:
+                # one member of every group is already in the destination (copied there with cp -p, by an earlier run without -H, ...)
+                for e in spec:
+                    if e["k"] == "h" and r.random() < 0.6:
+                        os.makedirs(os.path.dirname(os.path.join(dst, e["p"])), exist_ok=True)
+                        shutil.copy2(os.path.join(src, e["p"]), os.path.join(dst, e["p"]))
+                        st_ = os.stat(os.path.join(src, e["p"]))
+                        os.utime(os.path.join(dst, e["p"]), ns=(st_.st_atime_ns, st_.st_mtime_ns))
+                        break
+            for phase in ("create", "rerun", "update", "grow", "unlink"):
+                if phase == "grow":
+                    # the link structure of the source changes without any content changing: every group gets a further name, and two
+                    # plain files with the same bytes become hard links of each other
+                    for gi, e in enumerate([e for e in spec if e["k"] == "f" and not e["p"].startswith("plain")]):
+                        os.link(os.path.join(src, e["p"]), os.path.join(src, "late_name_%d" % gi))
+                    pl = [e for e in spec if e["k"] == "f" and e["p"].startswith("plain")]
+                    if len(pl) >= 2:
+                        a_, b_ = os.path.join(src, pl[0]["p"]), os.path.join(src, pl[1]["p"])
+                        os.remove(b_); os.link(a_, b_)
+                    want = inode_classes(world.snapshot(src))
                 if phase == "unlink":
                     # a group falls apart in the source: one member becomes a file of its own (other bytes), the first member changes too.
                     # The destination members must stop sharing an inode with it, and each must hold its own source's bytes
@@ -86,7 +105,7 @@ def run(tier, seed):
                         f.seek(0); f.write(b"FIRST!!!!")
                     os.utime(fp, ns=((world.T0 + 9600) * 10**9,) * 2)
                     want = inode_classes(world.snapshot(src))
-                snap = None
+                snap = gsnap = None
                 if phase == "update":
                     # a snapshot of one plain destination file made with cp -al (a second name of its inode): the update of the file
                     # must leave the snapshot's bytes alone
@@ -98,6 +117,11 @@ def run(tier, seed):
                         with open(os.path.join(src, pe["p"]), "ab") as f:
                             f.write(b"appended after the snapshot")
                         os.utime(os.path.join(src, pe["p"]), ns=((world.T0 + 9100) * 10**9,) * 2)
+                    # ... and so must the update of a whole group under -H: a snapshot of the first group's first name
+                    firsts = [e for e in spec if e["k"] == "f" and not e["p"].startswith("plain") and os.path.isfile(os.path.join(dst, e["p"]))]
+                    if firsts:
+                        gsnap = (os.path.join(dst, firsts[0]["p"] + ".gsnap"), world.sha(os.path.join(dst, firsts[0]["p"])))
+                        os.link(os.path.join(dst, firsts[0]["p"]), gsnap[0])
                     # rewrite one member of every group through its first path (all links see it)
                     for e in spec:
                         if e["k"] == "f" and not e["p"].startswith("plain"):
@@ -111,6 +135,10 @@ def run(tier, seed):
                         break
                     viol.append({"world": i, "phase": phase, "j": j, "why": "sy -H did not terminate within 25 s", "klass": None, "spec": [(e["p"], e["k"], e.get("to")) for e in spec]})
                     break
+                if gsnap is not None:
+                    if world.sha(gsnap[0]) != gsnap[1]:
+                        viol.append({"world": i, "phase": phase, "j": j, "why": "a second name (cp -al snapshot) of a destination name of a hard-link GROUP changed when the group was updated under -H", "klass": None})
+                    os.remove(gsnap[0])
                 if snap is not None:
                     if world.sha(snap[0]) != snap[1]:
                         viol.append({"world": i, "phase": phase, "j": j, "why": "a second name (cp -al snapshot) of an updated destination file changed with it: the file was rewritten in place", "klass": None})
